@@ -18,6 +18,7 @@ func init() {
 		e.RClauseSym()
 		e.RHangGuard()
 		e.RCursor(false)
+		e.RColumnOne()
 		e.RFragHelpers()
 		e.RFragOrder()
 	})
